@@ -497,4 +497,44 @@ theorem exec_noFault_track (env : Env) (steps : List Step) (hne : noEncodeCheck 
     simp only
     rw [ih', ← cwdTrack_cons]
 
+/-! ### order of effects and failures on every path -/
+
+theorem noEffectBeforeRaise_of_raiseFree (b : List FlatStep) (hb : b.all (fun t => !t.raises) = true) :
+    noEffectBeforeRaise b = true := by
+  induction b with
+  | nil => rfl
+  | cons s r ih =>
+    simp only [List.all_cons, Bool.and_eq_true] at hb
+    simp only [noEffectBeforeRaise, Bool.and_eq_true, Bool.or_eq_true]
+    exact ⟨Or.inr hb.2, ih hb.2⟩
+
+theorem noEffectBeforeRaise_append (a b : List FlatStep) (ha : a.all (fun t => !t.effect) = true)
+    (hb : b.all (fun t => !t.raises) = true) : noEffectBeforeRaise (a ++ b) = true := by
+  induction a with
+  | nil => exact noEffectBeforeRaise_of_raiseFree b hb
+  | cons s r ih =>
+    simp only [List.all_cons, Bool.and_eq_true] at ha
+    simp only [List.cons_append, noEffectBeforeRaise, Bool.and_eq_true, Bool.or_eq_true]
+    exact ⟨Or.inl ha.1, ih ha.2⟩
+
+theorem replicate_raiseFree (body : List FlatStep) (hb : body.all (fun t => !t.raises) = true) (n : Nat) :
+    (List.replicate n body).flatten.all (fun t => !t.raises) = true := by
+  induction n with
+  | zero => rfl
+  | succ k ih => rw [List.replicate_succ, List.flatten_cons, List.all_append, hb, ih]; rfl
+
+/-- from the decidable side condition: on the path with ANY number of loop iterations no effect precedes a may-raise step -/
+theorem fullPath_ordered (cs : List CStep) (pre body post : List Step) (h : effectsAfterRaises cs pre body post = true)
+    (n : Nat) : noEffectBeforeRaise (fullPath cs pre body post n) = true := by
+  simp only [effectsAfterRaises, Bool.and_eq_true, List.all_append] at h
+  obtain ⟨hpre, hbody, hpost⟩ := h
+  unfold fullPath
+  rw [List.append_assoc]
+  apply noEffectBeforeRaise_append _ _ hpre
+  rw [List.all_append, Bool.and_eq_true]
+  constructor
+  · apply replicate_raiseFree
+    rw [List.all_map]; exact hbody
+  · rw [List.all_map]; exact hpost
+
 end Dcg.Proofs.Write
